@@ -12,6 +12,13 @@ fn l2(ctx: &mut Ctx, faults: bool, big: bool) {
 fn l1(ctx: &mut Ctx) {
     crate::l1::run(ctx);
 }
+fn l2_real(ctx: &mut Ctx) {
+    use crate::socks::Kind;
+    let kind = [Kind::Pull, Kind::Sub, Kind::Dealer, Kind::Router, Kind::Rep][(ctx.idx % 5) as usize];
+    let out = recv::run_real(ctx, kind);
+    recv::check_real(ctx, &out);
+    ctx.check_panics();
+}
 fn l2_clean(ctx: &mut Ctx) {
     l2(ctx, false, false)
 }
@@ -32,6 +39,7 @@ pub fn def() -> PropDef {
             Stratum { name: "l1_fairqueue", quick: 150_000, thorough: 10_000_000, exhaustive: (false, false), run: l1, what: "component simulation of the fair queue: events inside the checked-out window" },
             Stratum { name: "l2_clean", quick: 30_000, thorough: 1_000_000, exhaustive: (false, false), run: l2_clean, what: "whole library, fault-free: peers join late, close orderly" },
             Stratum { name: "l2_faults", quick: 40_000, thorough: 1_500_000, exhaustive: (false, false), run: l2_faults, what: "whole library with cuts mid-message and resets" },
+            Stratum { name: "l2_real_sockets", quick: 40_000, thorough: 1_500_000, exhaustive: (false, false), run: l2_real, what: "real sockets on both sides: PUSH->PULL, PUB->SUB, DEALER->DEALER, DEALER->ROUTER, REQ->REP" },
             Stratum { name: "l2_big", quick: 4_000, thorough: 100_000, exhaustive: (false, false), run: l2_big, what: "frames around 8 KiB / 128 KiB boundaries" },
         ],
     }
